@@ -30,7 +30,19 @@ let run (toks : string list) : string =
     let accs = split_on ';' spec in
     let m = ref Ids.empty_container in
     let outs = ref [] and js = ref [] in
+    let pos : int option list ref = ref [] in     (* per constructed object: its position among the members, if it is one *)
     L.iteri (fun ai a ->
+        if String.length a > 0 && a.[0] = '-' then begin
+          let k = int_of_string (String.sub a 1 (String.length a - 1)) in
+          let mem = (try L.nth !pos k with _ -> None) in
+          (match mem with
+           | Some p ->
+             m := Ids.remove_accessory !m (Some (nat_of_int p));
+             pos := L.mapi (fun i x -> if i = k then None else match x with Some q when q > p -> Some (q - 1) | y -> y) !pos
+           | None -> ());
+          pos := !pos @ [None];
+          outs := Printf.sprintf "a%d=rm" ai :: !outs
+        end else
         let (eid, svcs) = (match String.index_opt a ':' with
             | Some i -> (int_of_string (String.sub a 0 i), String.sub a (i+1) (String.length a - i - 1))
             | None -> (int_of_string a, "")) in
@@ -39,12 +51,15 @@ let run (toks : string list) : string =
         let before = L.length !m.Ids.c_accs in
         let (m', ok) = Ids.add_accessory !m (n_of_int eid) shape in
         m := m';
-        if not ok then outs := Printf.sprintf "a%d=rej" ai :: !outs
+        if not ok then (pos := !pos @ [None]; outs := Printf.sprintf "a%d=rej" ai :: !outs)
         else begin
+          pos := !pos @ [Some before];
           let (aid, _) = L.nth !m.Ids.c_accs before in
           let ids = String.concat "," (L.map (fun x -> string_of_int (int_of_n x)) (Ids.instance_ids shape)) in
-          outs := Printf.sprintf "a%d=%d:%s" ai (int_of_n aid) ids :: !outs;
-          js := Printf.sprintf "%d:%s" (int_of_n aid) ids :: !js
+          outs := Printf.sprintf "a%d=%d:%s" ai (int_of_n aid) ids :: !outs
         end) accs;
-    String.concat " " (L.rev !outs) ^ " json=" ^ String.concat ";" (L.rev !js) ^ " wf=ok"
+    ignore js;
+    let final = L.map (fun (aid, shape) -> Printf.sprintf "%d:%s" (int_of_n aid)
+                          (String.concat "," (L.map (fun x -> string_of_int (int_of_n x)) (Ids.instance_ids shape)))) !m.Ids.c_accs in
+    String.concat " " (L.rev !outs) ^ " json=" ^ String.concat ";" final ^ " wf=ok"
   | _ -> "badcase"
